@@ -359,6 +359,11 @@ func (seg *Segmenter) enforceLanguages() {
 	}
 
 	for i, run := range seg.output {
+		if run.Language != "" && initialLangID.UseScript(run.Script) {
+			// the language is consistent with the script: keep it as it is,
+			// with its subtags ("ro-md" and "ro" do not select the same Opentype language system)
+			continue
+		}
 		resolved := enforceLang(initialLangID, run.Script)
 		seg.output[i].Language = resolved.Language()
 	}
